@@ -24,7 +24,7 @@ claimed = {
         "(End) Qual: keys only if not disqualified and no complaint is left unanswered, and then the returned private key is x, the group key vA[0], the public shares y[k], with x*g2 == y_me; plain VSS likewise under validKey; "
         "Joint-Feldman End: every instance with an unanswered complaint is disqualified before the keys are summed, the failure rule and error classes are exact. "
         "The dealer's side: Fr_polynomial_image_write's public image is the generator times the written share. "
-        "NOT decided: agreement ACROSS participants (same verdicts, same group key) is the assume-guarantee composition over a reliable broadcast channel (paper step); that the Horner value equals the sum of A_i x^i and commutes with multiplication by the generator (group laws: paper step), and the FILTER over the qualified dealers (getQualifiedKeys: assumed contract - the number of returned keys needs a counting argument); sumUpQualifiedKeys itself is verified against it (three C sums of what the filter returned; the public share of every one of the n participants is summed: loop-exit clause). Decided: every public share y[k] is the Horner value of the received verification vector at k+1 (E2_polynomial_image, E2_polynomial_images, E2PolynomialImages, computePublicKeys: spec function e2horner, loop invariants over the real C loops), the dealer's share for participant x is the Horner value of its coefficient vector at x (Fr_polynomial_image(_write), frPolynomialImage: frhorner) and its public image is the generator times that share; Joint-Feldman's per-message loops (Start / NextTimeout / Handle*) are checked for typestate and memory safety only (C10/C09), not for key consistency.",
+        "NOT decided: agreement ACROSS participants (same verdicts, same group key) is the assume-guarantee composition over a reliable broadcast channel (paper step); that the Horner value equals the sum of A_i x^i and commutes with multiplication by the generator (group laws: paper step), and that the summed keys are the qualified dealers' contributions is verified structurally only: Joint-Feldman End counts the disqualified instances (invariant: i minus the counter equals the number of non-disqualified instances among the first i, a spec-level fold over the flags), getQualifiedKeys returns exactly that many keys of each kind (no assumption left: the counting argument is proved through the nested append loops) and never indexes an instance's vector or share list out of range, and sumUpQualifiedKeys hands the C sums buffers of exactly that length and sums the public share of every one of the n participants (loop-exit clause); WHICH dealers' keys end up in the lists (the functional content of the filter) is not specified. Decided: every public share y[k] is the Horner value of the received verification vector at k+1 (E2_polynomial_image, E2_polynomial_images, E2PolynomialImages, computePublicKeys: spec function e2horner, loop invariants over the real C loops), the dealer's share for participant x is the Horner value of its coefficient vector at x (Fr_polynomial_image(_write), frPolynomialImage: frhorner) and its public image is the generator times that share; Joint-Feldman's per-message loops (Start / NextTimeout / Handle*) are checked for typestate and memory safety only (C10/C09), not for key consistency.",
    note=TRUSTED + " G2 arithmetic and the equality test are BLST primitives (uninterpreted; equality is reflexive and blind to the affine conversion: assumed); g2vecValid (a 96n-byte string decodes to n G2 points) is an abstract predicate introduced by an assumed clause; composition across participants is not machine-checked.",
    design="§0.2, §5 C07"),
  "C11": dict(
